@@ -89,15 +89,22 @@ func Main(args []string) int {
 	evs := events()
 	quick := f.Tier == "quick"
 	depth := map[bool]int{true: 4, false: 5}[quick]
-	budget := map[bool]time.Duration{true: 200 * time.Second, false: 27 * time.Minute}[quick]
+	budget := map[bool]time.Duration{true: 240 * time.Second, false: 27 * time.Minute}[quick]
 	if f.Budget > 0 {
 		budget = f.Budget
 	}
 	cfg := explore.BFSConfig{
-		Command:   prop,
-		Workers:   f.Workers,
-		MaxDepth:  depth,
-		NumEvents: func(int) int { return len(evs) },
+		Command:  prop,
+		Workers:  f.Workers,
+		MaxDepth: depth,
+		NumEvents: func(d int) int {
+			// quick tier: the triples (last in the alphabet) are tried in the first two blocks only, so that
+			// the depth-4 level stays inside the quick budget; the thorough tier tries them everywhere
+			if quick && d >= 2 {
+				return len(evs) - len(triples())
+			}
+			return len(evs)
+		},
 		Deadline:  time.Now().Add(budget),
 		PerJob:    2 * time.Minute,
 		Tier:      f.Tier,
@@ -106,7 +113,7 @@ func Main(args []string) int {
 	st := explore.RunBFS(cfg, rep)
 	st.Fill(rep)
 	rep.Set("distinct_nontrivial", st.Info["nontrivial_executions"])
-	rep.Set("rule", "one case = one history of up to "+fmt.Sprint(depth)+" blocks (1..2 operations each, or none) replayed from genesis on the real application; after every transaction (deliver state, between two DeliverTx calls) and after every block (committed state) the native and the EVM view of every tracked account are compared and the transaction's effect is checked against the reference ledger; histories are distinct by construction; non-trivial = at least one OLVM transaction of the history was executed (clause 2 evaluated) or failed its pre-checks (clause 3 evaluated)")
+	rep.Set("rule", "one case = one history of up to "+fmt.Sprint(depth)+" blocks (1..3 operations each, or none) replayed from genesis on the real application; after every transaction (deliver state, between two DeliverTx calls) and after every block (committed state) the native and the EVM view of every tracked account are compared and the transaction's effect is checked against the reference ledger; histories are distinct by construction; non-trivial = at least one OLVM transaction of the history was executed (clause 2 evaluated) or failed its pre-checks (clause 3 evaluated)")
 	var never []string
 	acc := 0
 	for i, e := range evs {
@@ -132,7 +139,7 @@ func Main(args []string) int {
 		names = append(names, e.name())
 	}
 	rep.Set("alphabet", names)
-	rep.Set("bounds", map[string]interface{}{"blocks_per_history": depth, "ops_per_block": "0..2 (19 single operations, 15 listed pairs)", "alphabet_size": len(evs),
+	rep.Set("bounds", map[string]interface{}{"blocks_per_history": depth, "ops_per_block": "0..3 (19 single operations, 15 listed pairs, 4 listed triples; quick tier: triples in the first two blocks only)", "alphabet_size": len(evs),
 		"trailing_empty_blocks": quietBlocks, "search": "breadth-first, all successors of every new state, dedup on projected state digest"})
 	rep.Assume("the EVM view is read through a fresh instance of the adapter (vm.CommitStateDB over the account keeper and contract store) bound to the same state object the native read uses; the application's own adapter instance is never probed")
 	rep.Assume("native transactions cannot be signed by ETHSECP accounts at all (their key handler signs/verifies 32-byte digests only), so 'native from an ETHSECP account' does not exist; native sends TO them and OLVM transfers to ED25519 accounts are in the alphabet")
